@@ -487,6 +487,41 @@ def isinstance_problems(prog: Program, scope: Dict[str, FuncInfo]) -> Tuple[int,
 
 
 # --------------------------------------------------------------------------------------------------------------------
+# TOTAL-LOGLEVEL
+# --------------------------------------------------------------------------------------------------------------------
+
+def loglevel_problems(prog: Program, scope: Dict[str, FuncInfo]) -> Tuple[int, List[Tuple[FuncInfo, int, str, str]]]:
+    """`<logger>.log(level, msg, …)`: logging.Logger.log raises TypeError('level must be an integer') for a non-integer level
+    (logging.raiseExceptions is true unless the application turned it off) — a message literal in the level position makes the
+    calling function raise on every execution, whatever handlers are configured."""
+    ty = types_of(prog)
+    n = 0
+    out: List[Tuple[FuncInfo, int, str, str]] = []
+    for q, f in sorted(scope.items()):
+        sc = None
+        for x in walk_own(f.node):
+            if not (isinstance(x, ast.Call) and isinstance(x.func, ast.Attribute) and x.func.attr == 'log' and x.args):
+                continue
+            recv = dotted(x.func.value) or ''
+            is_logger = recv.rsplit('.', 1)[-1].lstrip('_').lower().endswith(('logger', 'log'))
+            if not is_logger:
+                sc = sc or FuncScope(f, ty)
+                try:
+                    is_logger = any(t[0] in ('extinst', 'ext') and 'logging' in str(t[1]) for t in members(ty.expr(x.func.value, sc)))
+                except RecursionError:
+                    is_logger = False
+            if not is_logger:
+                continue
+            n += 1
+            a0 = x.args[0]
+            if isinstance(a0, ast.JoinedStr) or isinstance(a0, ast.Constant) and isinstance(a0.value, str):
+                out.append((f, x.lineno, f'`{norm(x)[:50]}`: message in the level position',
+                            f'`{norm(x)[:110]}` in {short(q)} passes the message text as the level: Logger.log raises TypeError (level must be an '
+                            f'integer), so {short(q)} raises on every call instead of doing its work'))
+    return n, out
+
+
+# --------------------------------------------------------------------------------------------------------------------
 
 def totality(ck: Check, prog: Program, extra: Iterable[str] = ()) -> None:
     scope = scope_of(prog, list(ck.functions) + list(extra))
@@ -494,8 +529,100 @@ def totality(ck: Check, prog: Program, extra: Iterable[str] = ()) -> None:
         return
     for rule, fn, what in (('TOTAL-RETURN', return_problems, 'functions with a None-free declared return type never return None where the value is used'),
                            ('TOTAL-ATTR', attr_problems, 'classes: every attribute read on self is bound by the class family'),
-                           ('TOTAL-ISINST', isinstance_problems, 'isinstance / issubclass calls have the value first and the class second')):
+                           ('TOTAL-ISINST', isinstance_problems, 'isinstance / issubclass calls have the value first and the class second'),
+                           ('TOTAL-LOGLEVEL', loglevel_problems, 'Logger.log calls have the level (not the message) first')):
         n, problems = fn(prog, scope)
         ck.ob(rule, f'{n} {what} (scope: {len(scope)} functions reached from the analysed ones)', not problems, nontrivial=n > 0)
         for f, line, construct, msg in problems:
             ck.finding(rule, f.qualname, construct, f.module.rel, line, msg)
+
+
+# --------------------------------------------------------------------------------------------------------------------
+# ENC-BRANCH: the shape of a json.JSONEncoder.default override
+# --------------------------------------------------------------------------------------------------------------------
+
+def encoder_default(ck: Check, prog: Program, cls_q: str, must_cover: Iterable[str] = (), why: str = '') -> None:
+    """`default(self, o)` of the encoder class: (1) a return reached only when `isinstance(o, C)` held hands back a value built from
+    `o` (never None / a constant); (2) every other return is `super().default(o)` — the base raises TypeError for what nobody knows
+    how to encode — and the body cannot run off its end; (3) the classes named in `must_cover` each have such a branch."""
+    from ..cfg import CFG
+    from ..flow import Flow
+    from ..inline import inlined_program
+    from ..model import AnalysisError
+    from ..util import guard_edges
+    ci = prog.classes.get(cls_q)
+    if ci is None:
+        raise AnalysisError(f'encoder class {cls_q} not found')
+    d = prog.find_method(ci, 'default')
+    if d is None or d.cls is not ci:
+        # the class no longer overrides default(): whatever it had to cover is not covered
+        for need in must_cover:
+            ck.ob('ENC-BRANCH', f'{short(cls_q)}.default covers {need}', False)
+            ck.finding('ENC-BRANCH', cls_q, f'{need} not encodable', ci.module.rel, ci.node.lineno,
+                       f'{short(cls_q)} does not override default(): {need} objects are not JSON-encodable with it ({why})')
+        return
+    ck.functions.add(d.qualname)
+    p2 = inlined_program(prog, [d.qualname])
+    d = p2.func(d.qualname)
+    cfg = CFG(d, p2)
+    fl = Flow(cfg)
+    ps = [a.arg for a in d.node.args.posonlyargs + d.node.args.args]
+    obj = ps[1] if len(ps) > 1 else None
+    if obj is None:
+        raise AnalysisError(f'{d.qualname}: no object parameter')
+    covered: List[str] = []
+    problems: List[Tuple[int, str, str]] = []
+
+    def mentions_obj(e: ast.expr) -> bool:
+        return any(isinstance(y, ast.Name) and y.id == obj for y in ast.walk(e))
+
+    def is_delegation(v: Optional[ast.expr]) -> bool:
+        return isinstance(v, ast.Call) and isinstance(v.func, ast.Attribute) and v.func.attr == 'default' and \
+            isinstance(v.func.value, ast.Call) and dotted(v.func.value.func) == 'super' and any(mentions_obj(a) for a in v.args)
+    for m in cfg.stmt_nodes():
+        if m.kind != 'stmt' or not isinstance(m.ast, ast.Return):
+            continue
+        v = m.ast.value
+        pos: List[str] = []
+        for g in guard_edges(cfg, m):
+            c = g.src.ast
+            if isinstance(c, ast.Call) and dotted(c.func) == 'isinstance' and len(c.args) == 2 and dotted(c.args[0]) == obj and g.label == 'T':
+                for alt in fl.alts(g.src, c.args[1]):
+                    tp = alt.expr
+                    for e in (tp.elts if isinstance(tp, ast.Tuple) else tp.elts if isinstance(tp, ast.List) else [tp]):
+                        ent = p2.resolve(d.module, e)
+                        pos.append(ent.qualname if isinstance(ent, ClassInfo) else ent if isinstance(ent, str) else norm(e))
+        if pos:
+            if is_delegation(v):
+                continue
+            vals = [al.expr for al in fl.alts(m, v)] if v is not None else []
+            ok = v is not None and vals and all(mentions_obj(x) and not (isinstance(x, ast.Constant)) for x in vals)
+            if ok:
+                covered += pos
+            else:
+                problems.append((m.line, f'branch for {pos[0].rsplit(".", 1)[-1]} returns `{norm(v) if v is not None else "None"}`',
+                                 f'`{norm(m.ast)}` is what {short(d.qualname)} hands to the JSON encoder for a {pos[0].rsplit(".", 1)[-1]} object: it is not '
+                                 f'built from the object, so the object is serialised as that value (null) and what it carried is lost'))
+        elif not is_delegation(v):
+            problems.append((m.line, f'`{norm(m.ast)[:60]}` outside an isinstance branch',
+                             f'`{norm(m.ast)}` in {short(d.qualname)} is reached for objects that passed no `isinstance({obj}, …)` test: whatever is '
+                             f'not known must be handed to `super().default({obj})` (which raises TypeError); here every such object takes this '
+                             f'return instead (AttributeError on it, or a wrong value on the wire)'))
+    falls = cfg.exit.id in cfg.reachable(cfg.entry, avoid_nodes=[m for m in cfg.stmt_nodes() if isinstance(m.ast, (ast.Return, ast.Raise))],
+                                        edge_ok=lambda e: e.label != 'exc')
+    if falls:
+        problems.append((d.node.lineno, 'default() can end without a return', f'{short(d.qualname)} can run off its end: the object is encoded as null'))
+    for need in must_cover:
+        ok = need in covered
+        if not ok:
+            # a base class of the needed one covers it as well
+            nci = prog.classes.get(need)
+            ok = nci is not None and any(isinstance(b, ClassInfo) and b.qualname in covered for b in prog.mro(nci))
+        if not ok:
+            problems.append((d.node.lineno, f'{need.rsplit(".", 1)[-1]} not encodable',
+                             f'{short(d.qualname)} has no `isinstance({obj}, {need.rsplit(".", 1)[-1]})` branch returning a value built from the object: '
+                             f'{why}'))
+    ck.ob('ENC-BRANCH', f'{short(d.qualname)}: isinstance branches return values built from the object, everything else goes to the base '
+          f'encoder; covers {sorted(c.rsplit(".", 1)[-1] for c in set(covered))}', not problems)
+    for line, construct, msg in problems:
+        ck.finding('ENC-BRANCH', d.qualname, construct, d.module.rel, line, msg)
